@@ -49,6 +49,18 @@ def atomicOK (tbl : List Method) (extra : List String) : Bool :=
 def present (tbl : List Method) (extra : List String) (name : String) : Bool :=
   (entries tbl).any (fun m => m.name == name && touchesGuarded tbl extra m)
 
+/-- publication into another layer: every call an entry point makes through a field to one of the named methods of the
+    object behind it (`tc.main.setValue(…)`: the transaction's writes go into the block cache) happens while the type's
+    own mutex is held exclusively — so the read of the write set and its publication are in the same critical section,
+    and a lookup through the same object can never see the write set gone and the writes not yet applied -/
+def publishOK (tbl : List Method) (callees : List String) : Bool :=
+  (entries tbl).all (fun m => m.accesses.all (fun a =>
+    !(a.kind == .call && callees.contains a.callee) || (a.goroutine == 0 && a.mode == .write)))
+
+/-- non-vacuity: the named entry point does make such a call -/
+def publishes (tbl : List Method) (callees : List String) (name : String) : Bool :=
+  (entries tbl).any (fun m => m.name == name && m.accesses.any (fun a => a.kind == .call && callees.contains a.callee))
+
 /-- `StateCache.commit`: every access to the state cache's fields — in its body or in a helper — happens with the state
     cache's mutex held exclusively and inside another object's lock (the committing block's `mu`), in one critical section -/
 def commitOK (m : Method) : Bool :=
